@@ -1,5 +1,7 @@
 import Py4hwV.Proofs.C01FlatInst
 import Py4hwV.Proofs.C01FlatStore
+import Py4hwV.Proofs.C01FlatShip
+import Py4hwV.Proofs.C01FlatIR
 /-
   C01, design level — FLAT designs: one module whose items are continuous assigns of the inline forms proved in
   Props/C01.lean over declared nets, plus flattened `Reg` instances (`reg rq = RV`, the always block of `C01.regBody`,
@@ -19,8 +21,11 @@ import Py4hwV.Proofs.C01FlatStore
     `flat_cycle`     one `cycleA` ≙ `clk(1)`
     `flat_run`       from power-up, after ANY sequence of pokes / clk(n): every net agrees at every observation
     `flat_powerup`   the observation before the first clock
+  Shipped interpreter (HashMap store, `Sim.half` with clock toggling and delta loop)
+    `shipped_settle`, `shipped_sim_settle`, `shipped_cycle`, `shipped_run`, `shipped_powerup`, `shipped_state_exists`
   The generic forms (any justified assign list over any name ↦ net map): `FlatM.comb_corr`, `FlatM.cycle_corr`,
-  `FlatM.run_corr`.
+  `FlatM.run_corr`.  What is NOT proved: that `V.flatten`/`V.mkSim` of the emitted two-module text yield such a state
+  (notes/C01deep.md, "What remains" 1).
 -/
 namespace C01Flat
 open V Net FlatM
@@ -162,6 +167,55 @@ theorem flat_run (F : FlatDesign) (hF : F.WF) (as : List (LHS × Expr)) (hp : as
   simp only [runC, List.foldl_append, List.foldl, applyOpA, applyOp] at hv ⊢
   exact hv
 
+/-! ## the SHIPPED interpreter (`V.Sim`: HashMap store, clock toggling, delta loop) on flat designs -/
+
+/-- **`V.Sim.cycle` is `cycleA`** on a well-formed flat design whose clocks are declared one bit wide and are high between
+    cycles: the falling half fires nothing, the rising half fires every register body on the settled pre-edge store, the
+    delta loop stops (no derived clock), no error is logged, and the invariant holds again -/
+theorem shipped_cycle (F : FlatDesign) (hF : F.WF) (as : List (LHS × Expr)) (hp : as.Perm F.assigns) (m : Sim)
+    (h : FlatDesign.ShipInv F as m) :
+    m.cycle.st.rd = cycleA (F.flatOf as) m.st.rd ∧ m.cycle.errors = m.errors ∧ FlatDesign.ShipInv F as m.cycle :=
+  FlatDesign.ship_cycle hF as hp m h
+
+/-- **C01 for flat designs, on the shipped interpreter**: start from a simulator state `m0` that runs the flattened text,
+    declares the signals, holds `rq = reset_value`, inputs 0 and the clocks high (what `mkSim` + `set <input> 0` produce);
+    apply ANY covered history with the operations of lean/Drv/V.lean (`set`, `step`).  Then no error is logged and after
+    every `step` every net — in particular every top-level output — reads the value of the py4hw simulator
+    (`Net.runC` on the design with the GENERATED leaf functions), known. -/
+theorem shipped_run (F : FlatDesign) (hF : F.WF) (as : List (LHS × Expr)) (hp : as.Perm F.assigns) (m0 : Sim)
+    (hinv : FlatDesign.ShipInv F as m0) (h0 : F.PowerUp0 m0.st.rd) (ops : List Op) (hops : ∀ op, op ∈ ops → F.OpOK op)
+    (n : Nat) :
+    ((ops ++ [Op.clk (n + 1)]).foldl F.shipOp m0).errors = m0.errors ∧
+    ∀ k, k ∈ F.nets →
+      ((ops ++ [Op.clk (n + 1)]).foldl F.shipOp m0).st.rd.val (F.nm k) =
+        ⟨F.wd k, (runC F.netD.design F.netD.st0 F.netD.cons (ops ++ [Op.clk (n + 1)])).val k, true⟩ := by
+  have hops' : ∀ op, op ∈ ops ++ [Op.clk (n + 1)] → F.OpOK op := by
+    intro op hop
+    simp only [List.mem_append, List.mem_singleton] at hop
+    rcases hop with h | h
+    · exact hops op h
+    · subst h; trivial
+  have hs := FlatDesign.ship_run hF as hp m0 hinv (ops ++ [Op.clk (n + 1)]) hops'
+  refine ⟨hs.2.1, ?_⟩
+  intro k hk
+  rw [hs.1]
+  exact flat_run F hF as hp m0.st.rd h0 ops hops n k hk
+
+/-- the first observation (before any clock): `settle`, then read -/
+theorem shipped_powerup (F : FlatDesign) (hF : F.WF) (as : List (LHS × Expr)) (hp : as.Perm F.assigns) (m0 : Sim)
+    (hinv : FlatDesign.ShipInv F as m0) (h0 : F.PowerUp0 m0.st.rd) :
+    m0.settle.errors = m0.errors ∧
+    ∀ k, k ∈ F.nets →
+      m0.settle.st.rd.val (F.nm k) = ⟨F.wd k, (initC F.netD.design F.netD.st0 F.netD.cons).val k, true⟩ := by
+  have hC := FlatDesign.cycOK hF as hp m0.st.rd.info hinv.clkdecl
+  have hl : ∀ a, a ∈ m0.flat.assigns → LhsOk m0.st.rd a.1 := by
+    rw [hinv.flat]; exact (FlatDesign.infoOK hF as hp m0.st.rd hinv.declared).lhs
+  have hs := sim_settle_rd m0 (by rw [hinv.flat]; exact hC.nostar) (topo := F.topo) (by rw [hinv.flat]; exact hC.perm) hC.acyc hl
+  refine ⟨hs.2.1, ?_⟩
+  intro k hk
+  rw [hs.1, hinv.flat]
+  exact (flat_powerup F hF as hp m0.st.rd h0).2 k hk
+
 end C01Flat
 
 /-! ## non-vacuity -/
@@ -258,5 +312,16 @@ example : ∀ op, op ∈ [Op.poke 0 12, Op.poke 1 10, Op.poke 2 1, Op.clk 3] →
   · exact ⟨⟨by decide, by decide, by decide⟩, by decide⟩
   · exact ⟨⟨by decide, by decide, by decide⟩, by decide⟩
   · trivial
+
+/-- a shipped-simulator state satisfying all hypotheses of `shipped_run` exists for EVERY well-formed design -/
+theorem shipped_state_exists (F : FlatDesign) (hF : F.WF) (as : List (LHS × Expr)) :
+    FlatDesign.ShipInv F as (F.sim1 as) ∧ F.PowerUp0 (F.sim1 as).st.rd := FlatDesign.sim1_inv hF as
+
+/-- … so on the example design the shipped interpreter drives `z` like the simulator, at every clock of every history -/
+example (ops : List Op) (hops : ∀ op, op ∈ ops → exF.OpOK op) (n : Nat) :
+    ((ops ++ [Op.clk (n + 1)]).foldl exF.shipOp (exF.sim1 exF.assigns)).st.rd.val "z" =
+      ⟨4, (runC exF.netD.design exF.netD.st0 exF.netD.cons (ops ++ [Op.clk (n + 1)])).val 4, true⟩ :=
+  (shipped_run exF exF_wf exF.assigns (List.Perm.refl _) _ (shipped_state_exists exF exF_wf _).1
+    (shipped_state_exists exF exF_wf _).2 ops hops n).2 4 (by decide)
 
 end C01Flat
